@@ -560,3 +560,200 @@ Proof.
   - apply IH. rewrite (decl_kind _ _ _ _ E). exact Har.
   - exfalso. exact (decl_only_declerr_lemma m s a Ha1 e0 E).
 Qed.
+
+(* ------------------------------------------------------------------------------------ *)
+(* the NaN exclusion stated on the arguments (F10)                                       *)
+(* ------------------------------------------------------------------------------------ *)
+Definition elems_nn (es : list (option schema)) : bool :=
+  forallb (fun x => x) (map (fun o => match o with Some e => schema_no_nan e | None => true end) es).
+Definition dents_nn (l : list dentry) : bool :=
+  forallb (fun x => x) (map (fun e => match de_schema e with Some t => schema_no_nan t | None => true end) l).
+
+Lemma fixed_no_nan_lemma : forall s,
+  dsl_inv s = true -> schema_no_nan s = true -> forall v, fixed s = Some v -> value_no_nan v = true.
+Proof.
+  induction s as [ | val | val mn mx | val mn mx pr | val len mnl mxl al sub pat
+                 | es ty len mnl mxl IHes IHty | ks IHks | ts IHts
+                 | val | val | val | val | nm t IHt | t IHt ] using schema_ind';
+    intros Hinv Hnn v Hfix; cbn [fixed] in Hfix; try discriminate.
+  - inversion Hfix. reflexivity.
+  - destruct val; inversion Hfix. reflexivity.
+  - destruct val as [i|]; inversion Hfix. destruct i; reflexivity.
+  - destruct val as [f|]; inversion Hfix. subst. exact Hnn.
+  - destruct val; inversion Hfix. reflexivity.
+  - destruct es as [es'|]; [|discriminate]. destruct ty; [discriminate|].
+    change (fixed (SList (Some es') None len mnl mxl) = Some v) in Hfix.
+    rewrite fixed_list in Hfix. destruct (fixed_elems es') as [vs|] eqn:Ef; [|discriminate].
+    inversion Hfix. subst v. clear Hfix.
+    destruct (fixed_elems_some _ _ Ef) as (ss & -> & HF).
+    specialize (IHes (map Some ss) eq_refl).
+    cbn [dsl_inv is_some is_none negb andb] in Hinv. cbn [schema_no_nan] in Hnn. bdestr.
+    match goal with H : forallb (fun x => x) (map (fun o => match o with Some e => dsl_inv e | None => true end) (map Some ss)) = true |- _ => rename H into Hel end.
+    match goal with H : forallb (fun x => x) (map (fun o => match o with Some e => schema_no_nan e | None => true end) (map Some ss)) = true |- _ => rename H into Hn end.
+    cbn [value_no_nan]. clear - IHes HF Hel Hn.
+    revert IHes Hel Hn. induction HF as [|s v ss vs Hsv HF IH]; intros IHes Hel Hn; [reflexivity|].
+    cbn [map forallb] in *. bdestr. inversion IHes as [|? ? Hs Hr]; subst.
+    rewrite (Hs s eq_refl) with (v := v); auto.
+  - destruct val; inversion Hfix. reflexivity.
+  - destruct val; inversion Hfix. reflexivity.
+  - destruct val as [[aw us]|]; inversion Hfix. reflexivity.
+  - destruct val as [d|]; inversion Hfix. subst. cbn [dsl_inv opt_all] in Hinv.
+    destruct v; try discriminate Hinv; reflexivity.
+Qed.
+
+Lemma elems_loop_nn n l : forall idx es,
+  elems_loop n idx l = Ok es -> forallb arg_no_nan l = true -> elems_nn es = true.
+Proof.
+  induction l as [|a r IH]; intros idx es; cbn [elems_loop].
+  - intros E _. inversion E. reflexivity.
+  - destruct (elem_of_arg a) as [e|] eqn:Ea; [|discriminate].
+    destruct (is_none e && _ && _); [discriminate|].
+    destruct (elems_loop n (S idx) r) as [es'| |] eqn:Er; cbn [bind]; try discriminate.
+    intros E H. inversion E. subst. clear E. cbn [forallb] in H. apply andb_true_iff in H as [Ha Hr].
+    unfold elems_nn in *. cbn [map forallb]. rewrite (IH _ _ Er Hr), andb_true_r.
+    destruct a as [v|s| | |]; cbn [elem_of_arg] in Ea; try discriminate.
+    + destruct v; try discriminate. inversion Ea. reflexivity.
+    + inversion Ea. subst. exact Ha.
+Qed.
+
+Lemma a_list_nn a l : arg_no_nan a = true -> a_list a = Some l -> forallb arg_no_nan l = true.
+Proof.
+  destruct a as [v| | |l0|]; cbn [a_list]; try discriminate.
+  - destruct v; try discriminate. cbn [arg_no_nan value_no_nan]. intros H E. inversion E. subst. clear E.
+    rewrite forallb_id_map' in H. induction l0 as [|x r IH]; cbn [map forallb] in *; auto.
+    apply andb_true_iff in H as [H1 H2]. cbn [arg_no_nan]. rewrite H1, (IH H2). reflexivity.
+  - cbn [arg_no_nan]. intros H E. inversion E. subst. rewrite forallb_id_map' in H. exact H.
+Qed.
+
+Lemma upsert_nn k s o l :
+  dents_nn l = true -> match s with Some t => schema_no_nan t | None => true end = true ->
+  dents_nn (upsert k s o l) = true.
+Proof.
+  unfold dents_nn. intros Hl Hs. induction l as [|e r IH]; cbn [upsert map forallb de_schema fst snd].
+  - rewrite Hs. reflexivity.
+  - cbn [map forallb] in Hl. apply andb_true_iff in Hl as [He Hr].
+    destruct (key_eqb k (de_key e)); cbn [map forallb de_schema fst snd].
+    + rewrite Hs. exact Hr.
+    + rewrite He. apply IH. exact Hr.
+Qed.
+
+Lemma dict_loop_nn items : forall acc l,
+  dents_nn acc = true -> forallb (fun kx : dkey * arg => arg_no_nan (snd kx)) items = true ->
+  dict_loop items acc = Ok l -> dents_nn l = true.
+Proof.
+  induction items as [|[k a] r IH]; intros acc l Hacc Hit; cbn [dict_loop].
+  - intros E. inversion E. subst. exact Hacc.
+  - cbn [forallb snd] in Hit. apply andb_true_iff in Hit as [Ha Hr].
+    destruct (dkey_ell k || a_ell a).
+    + destruct (negb (dkey_ell k)); [discriminate|]. destruct (negb (a_ell a)); [discriminate|].
+      apply IH; [|exact Hr]. apply upsert_nn; auto.
+    + destruct a as [v|s| | |]; try discriminate.
+      apply IH; [|exact Hr]. apply upsert_nn; auto.
+Qed.
+
+Lemma a_dict_nn a items :
+  arg_no_nan a = true -> a_dict a = Some items ->
+  forallb (fun kx : dkey * arg => arg_no_nan (snd kx)) items = true.
+Proof.
+  destruct a as [v| | | |d]; cbn [a_dict]; try discriminate.
+  - destruct v; try discriminate. cbn [arg_no_nan value_no_nan]. intros H E. inversion E. subst. clear E.
+    rewrite forallb_id_map' in H. induction d as [|[k x] r IH]; cbn [map forallb fst snd] in *; auto.
+    apply andb_true_iff in H as [H1 H2]. cbn [arg_no_nan]. rewrite H1, (IH H2). reflexivity.
+  - cbn [arg_no_nan]. intros H E. inversion E. subst. rewrite forallb_id_map' in H. exact H.
+Qed.
+
+Definition schemas_nn (l : list schema) : bool := forallb (fun x => x) (map (fun t => schema_no_nan t) l).
+
+Lemma flat_map_flatten_nn l :
+  forallb (fun x => x) (map (fun t => dsl_inv t) l) = true -> schemas_nn l = true ->
+  schemas_nn (flat_map flatten1 l) = true.
+Proof.
+  unfold schemas_nn. induction l as [|s r IH]; cbn [map forallb flat_map]; [reflexivity|].
+  intros Hi Hn. apply andb_true_iff in Hi as [His Hir]. apply andb_true_iff in Hn as [Hns Hnr].
+  rewrite map_app, forallb_app, (IH Hir Hnr), andb_true_r.
+  destruct (is_any_some s) eqn:E.
+  - destruct s as [| | | | | | |[ts|]| | | | | |]; try discriminate E.
+    cbn [dsl_inv] in His. apply andb_true_iff in His as [His _]. apply andb_true_iff in His as [_ Hflat].
+    cbn [flatten1]. rewrite (flat_map_flatten_flat _ Hflat). exact Hns.
+  - rewrite (flatten1_not_any _ E). cbn [map forallb]. rewrite Hns. reflexivity.
+Qed.
+
+Lemma all_schemas_nn args l :
+  no_nan_args args = true -> all_schemas args = Some l -> schemas_nn l = true.
+Proof.
+  revert l. induction args as [|a r IH]; intros l H E; cbn [all_schemas] in E.
+  - inversion E. reflexivity.
+  - destruct a as [|s| | |]; try discriminate.
+    destruct (all_schemas r) as [r'|] eqn:Er; [|discriminate]. inversion E. subst. clear E.
+    unfold no_nan_args in H. cbn [forallb arg_no_nan] in H. apply andb_true_iff in H as [Hs Hr].
+    unfold schemas_nn in *. cbn [map forallb]. rewrite Hs, (IH r' Hr eq_refl). reflexivity.
+Qed.
+
+Lemma decl_no_nan_lemma m s args s' :
+  dsl_inv s = true -> args_inv args = true ->
+  schema_no_nan s = true -> no_nan_args args = true -> decl m s args = Ok s' ->
+  schema_no_nan s' = true.
+Proof.
+  intros Hinv Hai Hnn Hargs.
+  destruct s; destruct m; cbn [decl]; try discriminate;
+    unfold with1, with_len, len_args;
+    destruct args as [|a [|b [|c r]]]; try discriminate.
+  all: unfold no_nan_args in Hargs; cbn [forallb] in Hargs.
+  all: try (unfold bool_call, int_call, float_min, float_max, float_precision, str_call, bytes_call,
+            uuid_call, datetime_call, date_call; unfold_decl; unfold bind, option_map; dall2;
+            try discriminate; intros E; inversion E; subst; clear E; cbn [schema_no_nan] in *; auto; fail).
+  - (* float call *)
+    unfold float_call, dE. destruct a as [v0| | | |]; cbn [a_float]; try discriminate.
+    destruct v0; try discriminate. dall2; try discriminate. intros E; inversion E; subst.
+    cbn [schema_no_nan]. cbn [arg_no_nan value_no_nan] in Hargs. bdestr. rewrite H. reflexivity.
+  - (* list call *)
+    unfold list_call, dE.
+    assert (Ha : arg_no_nan a = true) by (bdestr; assumption).
+    destruct a as [v0|t0| |l0|]; cbn [a_list]; try discriminate.
+    + destruct v0 as [| | | | | | | | |l0| | | |]; try discriminate.
+      dall; try discriminate. destruct (elems_loop _ _ _) as [es'| |] eqn:El; cbn [bind]; try discriminate.
+      destruct (two_ells es'); [discriminate|]. intros E; inversion E; subst; clear E. nones.
+      cbn [schema_no_nan]. fold (elems_nn es'). rewrite (elems_loop_nn _ _ _ _ El); [reflexivity|].
+      apply (a_list_nn (AVal (VList l0))); auto.
+    + dall; try discriminate. intros E; inversion E; subst; clear E. nones.
+      cbn [schema_no_nan]. exact Ha.
+    + dall; try discriminate. destruct (elems_loop _ _ _) as [es'| |] eqn:El; cbn [bind]; try discriminate.
+      destruct (two_ells es'); [discriminate|]. intros E; inversion E; subst; clear E. nones.
+      cbn [schema_no_nan]. fold (elems_nn es'). rewrite (elems_loop_nn _ _ _ _ El); [reflexivity|].
+      apply (a_list_nn (AList l0)); auto.
+  - (* dict *)
+    unfold dict_call, dE. destruct (a_dict a) as [items|] eqn:Ea; [|discriminate].
+    destruct ks as [k0|]; cbn [is_some is_none negb]; [discriminate|].
+    destruct (dict_loop items []) as [l| |] eqn:El; cbn [bind]; try discriminate.
+    intros E; inversion E; subst; clear E. cbn [schema_no_nan].
+    apply (dict_loop_nn items [] l); auto. apply (a_dict_nn a); auto. bdestr; assumption.
+  - (* any *)
+    unfold any_call, dE. destruct (all_schemas [a]) as [l|] eqn:Ea; [|discriminate].
+    destruct ts as [t0|]; cbn [is_some is_none negb]; [discriminate|]. intros E; inversion E; subst; clear E.
+    cbn [schema_no_nan]. apply flat_map_flatten_nn.
+    + apply (all_schemas_inv [a] l); auto.
+    + apply (all_schemas_nn [a] l); auto.
+  - unfold any_call, dE. destruct (all_schemas [a; b]) as [l|] eqn:Ea; [|discriminate].
+    destruct ts as [t0|]; cbn [is_some is_none negb]; [discriminate|]. intros E; inversion E; subst; clear E.
+    cbn [schema_no_nan]. apply flat_map_flatten_nn.
+    + apply (all_schemas_inv [a; b] l); auto.
+    + apply (all_schemas_nn [a; b] l); auto.
+  - unfold any_call, dE. destruct (all_schemas (a :: b :: c :: r)) as [l|] eqn:Ea; [|discriminate].
+    destruct ts as [t0|]; cbn [is_some is_none negb]; [discriminate|]. intros E; inversion E; subst; clear E.
+    cbn [schema_no_nan]. apply flat_map_flatten_nn.
+    + apply (all_schemas_inv (a :: b :: c :: r) l); auto.
+    + apply (all_schemas_nn (a :: b :: c :: r) l); auto.
+Qed.
+
+Lemma decl_fixed_conforms_nn_lemma m s args s' :
+  dsl_inv s = true -> schema_no_nan s = true -> args_inv args = true -> no_nan_args args = true ->
+  decl m s args = Ok s' ->
+  dsl_inv s' = true /\ schema_no_nan s' = true /\
+  forall v, fixed s' = Some v -> verdict s' v = true /\ conforms s' v.
+Proof.
+  intros Hi Hn Ha Hna Hd.
+  pose proof (decl_inv_lemma m s args s' Hi Ha Hd) as Hi'.
+  pose proof (decl_no_nan_lemma m s args s' Hi Ha Hn Hna Hd) as Hn'.
+  split; [exact Hi'|]. split; [exact Hn'|]. intros v Hf.
+  apply fixed_conforms_lemma; auto. apply (fixed_no_nan_lemma s' Hi' Hn' v Hf).
+Qed.
